@@ -677,13 +677,17 @@ class StageExecutor(ThreadPoolExecutor):
 
             def run(*a, **k):
                 self.w.log.add('exec.start', stage_of=self.stage, seq=seq, task=type(fn).__name__, tid=tid)
+                err = None
                 try:
                     return fn(*a, **k)
+                except BaseException as e:  # noqa - observed, then passed on unchanged
+                    err = f'{type(e).__name__}: {e}'[:200]
+                    raise
                 finally:
                     with self._cnt_lock:
                         self.outstanding -= 1
                         self.by_type[tname] -= 1
-                    self.w.log.add('exec.finish', stage_of=self.stage, seq=seq, task=type(fn).__name__, tid=tid)
+                    self.w.log.add('exec.finish', stage_of=self.stage, seq=seq, task=type(fn).__name__, tid=tid, escaped=err)
 
             try:
                 return super().submit(run, *args, **kwargs)
